@@ -18,9 +18,11 @@ func init() {
 			{"RoleBinding", "rbac.authorization.k8s.io/v1"}, {"ClusterRoleBinding", "rbac.authorization.k8s.io/v1"}, {"RoleBinding", "rbac.authorization.k8s.io/v1"},
 			{"MyKind", "example.com/v1"}, {"Namespace", "example.com/v1"}, {"APIService", "apiregistration.k8s.io/v1"}, {"RoleBinding", "v1"}}[r.Intn(11)]
 		meta := [][]interface{}{wF("name", wS("!!str", pick(r, []string{"obj", "default", "ns1"})))}
+		docNs := ""
 		switch r.Intn(6) {
-		case 0:
-			meta = append(meta, wF("namespace", wS("!!str", pick(r, []string{"old", "kube-system", "target"}))))
+		case 0, 5:
+			docNs = pick(r, []string{"old", "kube-system", "target"})
+			meta = append(meta, wF("namespace", wS("!!str", docNs)))
 		case 1:
 			meta = append(meta, wF("namespace", wS("!!str", "")))
 		case 2:
@@ -45,7 +47,11 @@ func init() {
 			}
 			switch r.Intn(6) {
 			case 0, 1:
-				fs = append(fs, wF("namespace", wS("!!str", pick(r, []string{"old", "other", "target"}))))
+				sns := pick(r, []string{"old", "other", "target"})
+				if docNs != "" && r.Intn(2) == 0 {
+					sns = docNs // a subject in the namespace the binding itself is in (and may be leaving)
+				}
+				fs = append(fs, wF("namespace", wS("!!str", sns)))
 			case 2:
 				fs = append(fs, wF("namespace", wS("!!str", "")))
 			case 3:
